@@ -17,7 +17,7 @@ EXPLANATION = (
     "is <= the number of generation names pushed by the fill loop (conjunction of `i < bound` tests), by construction: start is "
     "`list.size()-1`, or a min over exactly the fill bounds; R29.2 fill pushes base first then `base.(i+1)`, shift renames "
     "list[i-1] -> list[i] for descending i, rename arguments are list elements only, and (logger) the block is control-dependent on "
-    "`!append || force`, (persister) on purge. R29.3 the fill loop names exactly min(_rotnum, max_rotation) generations (strict bounds against the count and the documented cap) and has no early exit. NOT decided: what rename does to files.")
+    "`!append || force`, (persister) on purge. R29.3 the fill loop names exactly min(_rotnum, max_rotation) generations (strict bounds against the count and the documented cap) and has no early exit. R29.4 the count the rotation works with is the configured one: `_rotnum` is stored only by the constructor and min(stored, cap) = min(configured, cap) at every critical point of the initialiser; R29.5 where Configuration builds a FilePersister/FileLogger/XmlFileLogger the count is attribute \"rotation\" read with the same default as the constructor parameter it feeds. NOT decided: what rename does to files.")
 
 SITES = (('FIX8::FileLogger::rotate', 'logger'), ('FIX8::FilePersister::initialise', 'persister'))
 
